@@ -27,7 +27,11 @@ RULE = ("pairs (base, current) of JSON objects: 60% 'current' derived from 'base
 ASSUMPTIONS = [
     "payloads are JSON trees as produced by json.loads (dicts with string keys, no aliasing between sub-objects, no lone surrogates)",
     "top-level base/current are dicts or None (the documented signature)",
-    "json.loads(json.dumps(x, sort_keys=True)) == x for finite JSON trees (file round-trip; NaN/Infinity use CPython's extension)",
+    "json.loads(json.dumps(x, sort_keys=True)) == x for finite JSON trees (file round-trip; NaN/Infinity use CPython's extension); "
+    "the file-level model's 'one header line + one payload line' layout is NOT assumed but monitored: every file written by the real "
+    "write_snapshot_auto must split into exactly two str.splitlines() lines (keys/strings with U+0085, U+2028, U+2029, VT, FF, FS, GS, "
+    "RS, CR, LF and astral characters are generated), and what read_snapshot (etag and path) returns is compared with what was written "
+    "by the Lean J.eqv; load_latest_snapshot must load the written snapshot (loaded=True, its version_etag)",
     "a 'corrupt' baseline is one that json cannot parse (the code then raises); a baseline replaced by a different *valid* JSON document "
     "is indistinguishable from a legitimate one (no content hash in the delta header) and is out of scope",
 ]
@@ -83,14 +87,45 @@ TWINS = [[1, True, 1.0], [0, False, 0.0, -0.0], [[1], [True], [1.0]], [[0.0], [-
          [[[1, 2]], [[1, 2, 3]], [[1]]]]
 
 
+# code points that matter to line-oriented readers: str.splitlines() also splits on VT, FF, FS, GS, RS, NEL, LS, PS
+# (and CR, LF); astral characters exercise surrogate-pair escaping
+EXO_STRS = ["a\u2028b", "\x85", "x\u2029", "\u2028", "\u2029", "n\x85m", "\x0b", "\x0c", "\x1c", "\x1d", "\x1e", "a\x1cb\x1d\x1e",
+            "\r", "a\nb", "\r\n", "\n", "\U0001F600", "\U00010000z", "q\U0001F600\u2028", "\u2028\u2029\x85", "é\u2029.x"]
+_ALPH: Dict[str, Any] = {"keys": None, "strs": None}
+
+
+def _keys() -> List[str]:
+    return _ALPH["keys"] or KEYS
+
+
+def _leaf(rng: random.Random) -> Any:
+    if _ALPH["strs"] and rng.random() < 0.35:
+        return rng.choice(_ALPH["strs"]) if rng.random() < 0.8 else [rng.choice(_ALPH["strs"])]
+    return copy.deepcopy(rng.choice(_leaves()))
+
+
+class exotic_alphabet:
+    """context manager: gen_obj / mutate draw keys and string leaves from the exotic alphabet as well."""
+
+    def __init__(self, on: bool):
+        self.on = on
+
+    def __enter__(self):
+        if self.on:
+            _ALPH["keys"], _ALPH["strs"] = KEYS[:6] + EXO_STRS, EXO_STRS
+
+    def __exit__(self, *a):
+        _ALPH["keys"] = _ALPH["strs"] = None
+
+
 def gen_obj(rng: random.Random, depth: int, width: int) -> dict:
     o: Dict[str, Any] = {}
     for _ in range(rng.randint(0, width)):
-        k = rng.choice(KEYS)
+        k = rng.choice(_keys())
         if depth > 0 and rng.random() < 0.4:
             o[k] = gen_obj(rng, depth - 1, width)
         else:
-            o[k] = copy.deepcopy(rng.choice(_leaves()))
+            o[k] = _leaf(rng)
     return o
 
 
@@ -115,7 +150,7 @@ def mutate(rng: random.Random, base: dict) -> dict:
         if r < 0.2 and ks:
             del d[rng.choice(ks)]
         elif r < 0.4:
-            d[rng.choice(KEYS)] = copy.deepcopy(rng.choice(_leaves())) if rng.random() < 0.7 else gen_obj(rng, 1, 2)
+            d[rng.choice(_keys())] = _leaf(rng) if rng.random() < 0.7 else gen_obj(rng, 1, 2)
         elif r < 0.65 and ks:
             k = rng.choice(ks)
             for tw in TWINS:
@@ -124,17 +159,17 @@ def mutate(rng: random.Random, base: dict) -> dict:
                     d[k] = copy.deepcopy(rng.choice([t for j, t in enumerate(tw) if j != hit[0]]))
                     break
             else:
-                d[k] = copy.deepcopy(rng.choice(_leaves()))
+                d[k] = _leaf(rng)
         elif r < 0.8 and ks:
             k = rng.choice(ks)
-            d[k] = gen_obj(rng, 1, 2) if not isinstance(d[k], dict) else copy.deepcopy(rng.choice(_leaves()))
+            d[k] = gen_obj(rng, 1, 2) if not isinstance(d[k], dict) else _leaf(rng)
         elif r < 0.9 and len(ks) > 1:
             items = list(d.items())
             rng.shuffle(items)
             d.clear()
             d.update(items)
         else:
-            d[rng.choice(KEYS)] = {}
+            d[rng.choice(_keys())] = {}
     return cur
 
 
@@ -165,6 +200,19 @@ def _all_keys(o: Any, acc: set) -> set:
     elif isinstance(o, list):
         for v in o:
             _all_keys(v, acc)
+    return acc
+
+
+def _all_strings(o: Any, acc: set) -> set:
+    if isinstance(o, dict):
+        for k, v in o.items():
+            acc.add(k)
+            _all_strings(v, acc)
+    elif isinstance(o, list):
+        for v in o:
+            _all_strings(v, acc)
+    elif isinstance(o, str):
+        acc.add(o)
     return acc
 
 
@@ -407,16 +455,23 @@ class Auto(Component):
     GARBAGE = [b"", b"{", b"not json\nstill not", b"\xff\xfe\x00", b"{\"schema\":\"snapshot:v1\"}\n{\"a\": [1, "]
 
     def gen(self, rng, i):
+        exotic = rng.random() < 0.5
+        with exotic_alphabet(exotic):
+            case = self._gen(rng, exotic)
+        return case
+
+    def _gen(self, rng, exotic: bool):
         steps: List[list] = []
         snaplike = rng.random() < 0.5
-        payloads = [self._snap_payload(rng) if snaplike else gen_obj(rng, rng.choice([0, 1, 2]), 3)]
+        ETAGS = self.ETAGS + (["x\u2029", "\U0001F600\x85"] if exotic and rng.random() < 0.3 else [])
+        payloads = [self._snap_payload(rng, None, exotic) if snaplike else gen_obj(rng, rng.choice([0, 1, 2]), 3)]
 
         def pay():
             if snaplike:
                 # only well-formed graph edits here: the loader's result for junk records that collide on one
                 # sanitised edge id depends on dict order, which is C06's business and would make the
                 # "load via delta == load from full file" oracle order-sensitive
-                p = self._snap_payload(rng, payloads[-1])
+                p = self._snap_payload(rng, payloads[-1], exotic)
             else:
                 p = mutate(rng, rng.choice(payloads)) if rng.random() < 0.8 else gen_obj(rng, 1, 3)
             payloads.append(p)
@@ -428,14 +483,16 @@ class Auto(Component):
                 steps.append(["read", et])
             elif r < 0.75:
                 steps.append(["readp", rng.choice(["delta", "delta", "full"]), et])
-            else:
+            elif r < 0.93:
                 steps.append(["load", et])
+            else:
+                steps.append(["loadf", et])
 
         def rand_step():
             r = rng.random()
-            et = rng.choice(self.ETAGS)
+            et = rng.choice(ETAGS)
             if r < 0.4:
-                ef = rng.choice(self.ETAGS + [None, ""]) if rng.random() < 0.9 else None
+                ef = rng.choice(ETAGS + [None, ""]) if rng.random() < 0.9 else None
                 steps.append(["auto", ef, et, pay(), rng.random() < 0.75])
                 if rng.random() < 0.6:
                     reads(et)
@@ -448,7 +505,7 @@ class Auto(Component):
 
         if rng.random() < 0.65:
             # scripted skeleton: full baseline, delta on top, then a fault on the baseline
-            e0, e1 = rng.sample(self.ETAGS, 2)
+            e0, e1 = rng.sample(ETAGS, 2)
             steps.append(["auto", None, e0, enc(payloads[0]), rng.random() < 0.3])
             steps.append(["auto", e0, e1, pay(), True])
             reads(e1)
@@ -464,7 +521,7 @@ class Auto(Component):
             if rng.random() < 0.3:
                 reads(e1)
             if rng.random() < 0.5:
-                steps.append(["auto", e0, rng.choice(self.ETAGS), pay(), True])
+                steps.append(["auto", e0, rng.choice(ETAGS), pay(), True])
             if rng.random() < 0.5:
                 steps.append(["auto", None, e1, pay(), False])
                 reads(e1)
@@ -476,9 +533,11 @@ class Auto(Component):
         return {"steps": steps}
 
     @staticmethod
-    def _snap_payload(rng, prev: Optional[dict] = None) -> dict:
+    def _snap_payload(rng, prev: Optional[dict] = None, exotic: bool = False) -> dict:
         """a payload shaped like write_snapshot's (version_etag + gel with user-controlled ids)."""
         ids = ["a", "b", "n.1", "n.2", "", "é", "x\\y"]
+        if exotic:
+            ids = ids[:4] + ["a\u2028b", "\x85", "x\u2029", "\x0b\x0c", "\x1c\x1d\x1e", "\r", "a\nb", "\U0001F600", "\U00010000z"]
         p = copy.deepcopy(prev) if isinstance(prev, dict) and "gel" in prev else {"gel": {"nodes": {}, "edges": {}}}
         gel = p.setdefault("gel", {})
         if not isinstance(gel, dict):
@@ -496,7 +555,7 @@ class Auto(Component):
                 gel["edges"][key] = {"src": min(a, b), "dst": max(a, b), "rel": "coact",
                                      "weight": rng.choice([0.5, 1.0, 1, -0.25, 0.0]), "attrs": {}}
             if rng.random() < 0.5:
-                gel["nodes"][a] = {"id": a, "label": rng.choice(["x", "", "a.b"])}
+                gel["nodes"][a] = {"id": a, "label": rng.choice(["x", "", "a.b"] + (EXO_STRS if exotic else []))}
         if rng.random() < 0.8:
             p["version_etag"] = rng.choice(["v1", "v2", "7", 7])
         else:
@@ -517,8 +576,10 @@ class Auto(Component):
                 for st in case["steps"]:
                     if st[0] == "auto":
                         try:
-                            _, wrote = write_snapshot_auto(d, etag_from=st[1], etag_to=st[2], payload=dec(st[3]), delta_mode=st[4])
-                            out.append({"mode": "delta" if wrote else "full"})
+                            pth, wrote = write_snapshot_auto(d, etag_from=st[1], etag_to=st[2], payload=dec(st[3]), delta_mode=st[4])
+                            with open(pth, "rb") as fh:
+                                nlines = len(fh.read().decode("utf-8").splitlines())
+                            out.append({"mode": "delta" if wrote else "full", "lines": nlines})
                         except Exception:
                             out.append({"raised": True})
                     elif st[0] == "read":
@@ -533,6 +594,8 @@ class Auto(Component):
                             out.append({"raised": True})
                     elif st[0] == "load":
                         out.append(self._load(d, self._fname(d, "delta", st[1])))
+                    elif st[0] == "loadf":
+                        out.append(self._load(d, self._fname(d, "full", st[1])))
                     elif st[0] == "rm":
                         with contextlib.suppress(FileNotFoundError):
                             os.unlink(self._fname(d, st[1], st[2]))
@@ -586,7 +649,14 @@ class Auto(Component):
         return all(a.get(f) == b.get(f) for f in ("loaded", "version_etag", "state"))
 
     def request(self, case):
-        return {"c": "delta.auto", "steps": [s[:3] if s[0] == "corrupt" else s for s in case["steps"]]}
+        # `loadf` (load_latest_snapshot on a FULL file) is answered by the model's read of that file
+        return {"c": "delta.auto", "steps": [s[:3] if s[0] == "corrupt" else (["readp", "full", s[1]] if s[0] == "loadf" else s)
+                                             for s in case["steps"]]}
+
+    @staticmethod
+    def _nolines(out):
+        return [({k: v for k, v in o.items() if k != "lines"} if isinstance(o, dict) and "lines" in o else o) for o in out] \
+            if isinstance(out, list) else out
 
     def compare(self, case, impl_out, model_out):
         def cz(o):
@@ -594,7 +664,20 @@ class Auto(Component):
                 return [({"payload": canon(x["payload"])} if isinstance(x, dict) and "payload" in x and "src" not in x else x)
                         for x in o]
             return o
+        impl_out = self._nolines(impl_out)
         if isinstance(impl_out, list) and isinstance(model_out, list) and len(impl_out) == len(model_out):
+            impl_out, model_out = list(impl_out), list(model_out)
+            for i, st in enumerate(case["steps"]):
+                if st[0] != "loadf" or not isinstance(model_out[i], dict):
+                    continue
+                io, mo = impl_out[i], model_out[i]
+                if mo.get("raised"):
+                    ok = isinstance(io, dict) and (io.get("nofile") or io.get("loaded") is False)
+                else:
+                    ok = isinstance(io, dict) and "state" in io and self._same_load(io, self._oracle(st[1], mo["payload"]))
+                if not ok:
+                    return f"step {i} {st}: loader state {json.dumps(io)[:250]} but model read {json.dumps(mo)[:200]}"
+                impl_out[i] = model_out[i] = "loadf-agrees"
             # a `load` step: the model names the source; the real loader must end in the same state as when it
             # loads that payload from a plain full file (or must report that nothing was loaded)
             impl_out, model_out = list(impl_out), list(model_out)
@@ -625,8 +708,19 @@ class Auto(Component):
         delta: Dict[str, Any] = {}    # etag -> (etag_from, payload wire) | "corrupt"
         res = []
         tags = set()
+        lean: List[Tuple[str, dict]] = []
+        self._lean = lean
         prev = None
-        for st, o in zip(case["steps"], impl_out):
+        exo = "\x85\u2028\u2029\x0b\x0c\x1c\x1d\x1e\r\n"
+        if any(ch in exo or ord(ch) > 0xFFFF for stp in case["steps"] if stp[0] == "auto"
+               for k in _all_strings(dec(stp[3]), set()) for ch in k):
+            tags.add("payload:line-breaking-or-astral-chars")
+        raw_out = impl_out
+        impl_out = self._nolines(impl_out)
+        for idx, (st, o) in enumerate(zip(case["steps"], impl_out)):
+            if st[0] == "auto" and isinstance(raw_out[idx], dict) and "lines" in raw_out[idx]:
+                res.append(("written_file_is_one_header_line_plus_one_payload_line", raw_out[idx]["lines"] == 2,
+                            f"the file written for etag {st[2]!r} splits into {raw_out[idx]['lines']} str.splitlines() lines"))
             if st[0] == "auto":
                 ef, et, p, dm = st[1], st[2], st[3], st[4]
                 base_state = full.get(ef) if (dm and ef) else None
@@ -652,9 +746,31 @@ class Auto(Component):
                 (full if st[1] == "full" else delta)[st[2]] = "corrupt"
                 prev = None
                 continue
+            elif st[0] == "loadf":
+                et = st[1]
+                fl = full.get(et)
+                if isinstance(o, dict) and "state" in o and isinstance(fl, dict):
+                    tags.add("loadf:full")
+                    res.append(("load_latest_picked_the_full_file", o.get("picked_ok", False), "picker chose another file"))
+                    wv = dec(fl).get("version_etag") if isinstance(dec(fl), dict) else None
+                    res.append(("load_latest_loads_written_full_snapshot",
+                                o["loaded"] is True and o["version_etag"] == (wv if wv is not None else et),
+                                f"full snapshot of {et!r} written, loader answered loaded={o['loaded']} version_etag={o['version_etag']!r}"))
+                    want = self._oracle_state(et, fl)
+                    if want is not None:
+                        res.append(("load_latest_full_state", self._same_load(o, want), f"loaded {json.dumps(o)[:250]} expected {json.dumps(want)[:250]}"))
+                if isinstance(o, dict) and "load_raised" in o:
+                    res.append(("load_latest_never_raises", False, f"raised {o['load_raised']}"))
             elif st[0] == "load":
                 et = st[1]
                 dl = delta.get(et)
+                if isinstance(o, dict) and "state" in o and isinstance(dl, tuple) and isinstance(full.get(dl[0]), dict) \
+                        and prev is not None and prev[2] == et and prev[5] == {"mode": "delta"}:
+                    wv = dec(dl[1]).get("version_etag") if isinstance(dec(dl[1]), dict) else None
+                    res.append(("load_latest_loads_written_delta_snapshot",
+                                o["loaded"] is True and o["version_etag"] == (wv if wv is not None else et),
+                                f"delta snapshot of {et!r} written with baseline present, loader answered loaded={o['loaded']} "
+                                f"version_etag={o['version_etag']!r}"))
                 if isinstance(o, dict) and "state" in o and isinstance(dl, tuple):
                     res.append(("load_latest_picked_the_delta_file", o.get("picked_ok", False), "picker chose another file"))
                     base_state = full.get(dl[0])
@@ -697,6 +813,8 @@ class Auto(Component):
                         tags.add("readp:full")
                         if isinstance(target, dict) and not (isinstance(o, dict) and o.get("raised")):
                             res.append(("full_file_reads_back", canon(o["payload"]) == canon(target) or not dec(target), f"{o}"))
+                            if dec(target):
+                                lean.append(("full_file_reads_back", {"c": "delta.eqv", "a": o["payload"], "b": target}))
                         continue
                     tags.add("readp:delta")
                 else:
@@ -715,6 +833,7 @@ class Auto(Component):
                     cls = classify(dec(full[dl[0]]), dec(dl[1]))
                     res.append((f"delta_file_reads_back:{cls}", got == want,
                                 f"read {json.dumps(got)[:250]} expected {json.dumps(want)[:250]}"))
+                    lean.append((f"delta_file_reads_back:{cls}", {"c": "delta.eqv", "a": o["payload"], "b": dl[1]}))
                 elif isinstance(dl, tuple) and full.get(dl[0]) is None:
                     tags.add("read:baseline-missing")
                     sib = full.get(et)
@@ -725,6 +844,8 @@ class Auto(Component):
                     tags.add("read:full")
                     res.append(("full_file_reads_back", got == canon(full[et]) or (got == canon(enc({})) and not dec(full[et])),
                                 f"read {json.dumps(got)[:250]}"))
+                    if dec(full[et]):
+                        lean.append(("full_file_reads_back", {"c": "delta.eqv", "a": o["payload"], "b": full[et]}))
                 elif dl is None and full.get(et) is None:
                     tags.add("read:absent")
                     res.append(("absent_reads_empty", got == canon(enc({})), f"read {json.dumps(got)[:250]}"))
@@ -737,8 +858,19 @@ class Auto(Component):
     def monitors(self, case, impl_out):
         return self._track(case, impl_out)[0]
 
+    def monitor_requests(self, case, impl_out):
+        """what was read back vs what was written, decided by Lean (`J.eqv`)."""
+        self._track(case, impl_out)
+        return list(self._lean)
+
     def tags(self, case, impl_out):
         return sorted(self._track(case, impl_out)[1]) or ["default"]
+
+    def _oracle_state(self, et, payload_wire):
+        try:
+            return self._oracle(et, payload_wire)
+        except Exception:
+            return None
 
 
 RT, AP, PA, AU = RoundTrip(), Apply(), Paths(), Auto()
